@@ -224,7 +224,8 @@ def _tree_hash():
     h = hashlib.sha256()
     for base in (os.path.join(instrument.REPO, 'habutax'), os.path.join(common.VERIF, 'hv')):
         for root, dirs, files in sorted(os.walk(base)):
-            dirs.sort()
+            # hv/checks holds the per-property drivers only: they do not affect summaries or explorations
+            dirs[:] = sorted(d for d in dirs if not (base.endswith('hv') and d == 'checks'))
             for fn in sorted(files):
                 if fn.endswith('.py'):
                     p = os.path.join(root, fn)
